@@ -820,18 +820,20 @@ func (a *A) ruleNullKeyNeverLookedUp() int {
 		}
 		// nil tests of key components: interface values compared with nil that come from the row
 		// (streamFieldValue, a map lookup) or are read back from the key slice
-		var tests []*ssa.If
-		for _, b := range h.Blocks {
-			iff, ok := b.Instrs[len(b.Instrs)-1].(*ssa.If)
+		// (the test need not decide a branch at once: `nullKey = nullKey || v == nil` keeps its verdict in a
+		// variable, and the path exploration carries it to the branch that uses it)
+		var tests []*ssa.BinOp
+		allInstrs(h, func(in ssa.Instruction) {
+			bo, ok := in.(*ssa.BinOp)
 			if !ok {
-				continue
+				return
 			}
-			x, _, isNT := nilTest(iff.Cond)
+			x, _, isNT := nilTest(bo)
 			if !isNT {
-				continue
+				return
 			}
 			if _, isIface := x.Type().Underlying().(*types.Interface); !isIface {
-				continue
+				return
 			}
 			fromRow := false
 			for _, l := range phiLeaves(x) {
@@ -852,9 +854,9 @@ func (a *A) ruleNullKeyNeverLookedUp() int {
 				}
 			}
 			if fromRow {
-				tests = append(tests, iff)
+				tests = append(tests, bo)
 			}
-		}
+		})
 		for _, lk := range lookups {
 			lk := lk
 			n++
@@ -879,9 +881,9 @@ func (a *A) ruleNullKeyNeverLookedUp() int {
 			}
 			for _, t := range tests {
 				t := t
-				_, nilWhenTrue, _ := nilTest(t.Cond)
+				_, nilWhenTrue, _ := nilTest(t)
 				if pathFromTo(t, func(x ssa.Instruction) bool { return x == lk }, func(v ssa.Value) Tri {
-					if v == t.Cond {
+					if v == ssa.Value(t) {
 						return tri(nilWhenTrue) // this component is nil
 					}
 					return U
